@@ -41,7 +41,7 @@ fn weird_scalar(r: &mut Rng) -> Value {
 fn mutate(r: &mut Rng, q: &Value, w: &World, pc: &PluginChoice) -> (Value, &'static str) {
     let mut m = q.clone();
     let keys: Vec<String> = m.as_object().map(|o| o.keys().cloned().collect()).unwrap_or_default();
-    match r.below(22) {
+    match r.below(25) {
         0 => (weird_scalar(r), "non-object"),
         1 => (json!([q.clone()]), "array-wrapped"),
         2 => {
@@ -135,9 +135,32 @@ fn mutate(r: &mut Rng, q: &Value, w: &World, pc: &PluginChoice) -> (Value, &'sta
             }
             (m, "ids-out-of-range")
         }
-        _ => {
+        21 => {
             m["vehicle_rates"] = weird_scalar(r);
             (m, "vehicle-rates-ill-typed")
+        }
+        22 => {
+            // as deep as a JSON text may be nested (serde_json's parser stops at 128 levels)
+            let mut v = json!(1);
+            for _ in 0..120 {
+                v = if r.chance(0.5) { json!([v]) } else { json!({"n": v}) };
+            }
+            let k = if keys.is_empty() || r.chance(0.5) { "extra".to_string() } else { r.pick(&keys).clone() };
+            m[k] = v;
+            (m, "deeply-nested")
+        }
+        23 => {
+            let mut rm = serde_json::Map::new();
+            for (k, _) in &w.weights {
+                rm.insert(k.clone(), json!({"type": "factor", "factor": *r.pick(&[0.0, -1.0, 1e300])}));
+            }
+            m["vehicle_rates"] = Value::Object(rm);
+            m["cost_aggregation"] = json!(*r.pick(&["mul", "sum"]));
+            (m, "degenerate-rates")
+        }
+        _ => {
+            m["cost_aggregation"] = weird_scalar(r);
+            (m, "cost-aggregation-ill-typed")
         }
     }
 }
